@@ -234,6 +234,9 @@ func RunWorker(args []string) int {
 		c.Rep = &Report{Property: c.Prop, Tier: c.Tier, Seed: c.Seed, Shard: c.Shard, Shards: c.Shards, Race: c.Race}
 		t0 := time.Now()
 		c.Flush(false)
+		if c.Shard == 0 {
+			runDirectedFor(c)
+		}
 		r(c)
 		c.Rep.WallS = time.Since(t0).Seconds()
 		c.Flush(true)
@@ -301,4 +304,25 @@ func replayFile(path string) int {
 		return 1
 	}
 	return 0
+}
+
+// runDirectedFor runs the directed scenarios written for the property under
+// check (regression scenarios of defects found earlier: they must stay clean).
+func runDirectedFor(c *RunCtx) {
+	for _, d := range DirectedScenarios {
+		if d.Prop != c.Prop {
+			continue
+		}
+		c.WAL("directed %s", d.Name)
+		res := d.Run(c.Seed)
+		c.Eval(1)
+		c.Stat("directed_scenarios", 1)
+		if res.Inconclusive != "" {
+			c.Inconclusive("directed " + d.Name + ": " + res.Inconclusive)
+		}
+		for _, v := range res.Viol {
+			c.Violation(VReport{Prop: v.Prop, Sig: v.Sig, RID: v.RID, Msg: "[directed " + d.Name + "] " + v.Msg,
+				Witness: map[string]interface{}{"kind": "directed", "name": d.Name, "steps": res.Steps, "frames": res.Frames}})
+		}
+	}
 }
